@@ -12,7 +12,8 @@ RULE = ("(a) html_escape on EVERY Unicode scalar value (1 112 064 chars, in 272 
         "reference, the forbidden-character set and an explicit inverse; (b) generated templates whose data strings are drawn from "
         "an alphabet with all special characters, with expression kinds {{x}} {{{x}}} {{&x}} {{lookup ..}} {{eq ..}} and "
         "subexpressions, at top level and inside each/with/if/partials, under html_escape, no_escape and a MARKING escape fn "
-        "(wraps its argument in sentinels, so 'exactly once' is visible in the output); oracle = reference renderer; "
+        "(wraps its argument in sentinels, so 'exactly once' is visible in the output); oracle = reference renderer; the family of the Lean "
+        "theorem texts_and_tags_render (texts and 1..4 value tags in any mix of {{v}} {{{v}}} {{&v}}, any value; oracle = the theorem's closed form, exact); "
         "non-trivial = output contains an escaped or marked value; distinct by output")
 DEFINITE_FLOOR = 0.5
 GENERATED_OBLIGATIONS = ["EscapeTable"]
@@ -44,6 +45,27 @@ def generate(rng, n, tier="quick"):
     while len(out) < n + 272:
         r = rng.fork(i)
         i += 1
+        if r.chance(0.15):
+            # the family of the Lean theorem C02.texts_and_tags_render: S0 T1 S1 … Tk Sk with every Ti one of {{v}} {{{v}}} {{&v}},
+            # any admissible texts (whitespace-only ones between two tags included), any value; the expectation is the theorem's
+            # closed form  S0 ++ out(T1) ++ S1 ++ …  with out({{v}}) = escape(text v), out({{{v}}}) = out({{&v}}) = text v  (exact)
+            from .C03 import thm_left, thm_right
+            k = r.pick([1, 1, 2, 3, 4])
+            val = r.pick(["".join(r.pick(list(SPECIALS) + list("ab é&;#x \n")) for _ in range(r.range(0, 8))), 5, -3, True, False, None,
+                          ["<a>", "b&"], {"k": "<"}, "", "&amp;", 2 ** 64 - 1])
+            esc = r.pick(["html", "mark", "none"])
+            txt = ref.render_value(val)
+            src = thm_left(r) if k else thm_right(r)
+            exp = src
+            for t in range(k):
+                sp = r.pick(["{{v}}", "{{{v}}}", "{{&v}}"])
+                nxt = thm_right(r) if t == k - 1 else r.pick([thm_left(r), "", " ", "\n", "  \t"])
+                src += sp + nxt
+                exp += (escape_of(esc)(txt) if sp == "{{v}}" else txt) + nxt
+            case = session({"escape": esc}, [], {"api": "render_template", "src": src}, {"v": val, "w": "unused<"})
+            case["id"] = "%s-%06d" % (ID, i)
+            out.append((case, {"mode": "thm", "expect": exp, "esc": esc}))
+            continue
         data = special_doc(r)
         esc = r.pick(["html", "mark", "mark", "none"])
         cfg = {"escape": esc, "helpers": [{"name": "wr", "kind": "wr"}]}
@@ -121,6 +143,11 @@ def oracle(case, meta, impl):
         if t != "".join(ENT.get(ch, ch) for ch in s):
             v.append("differs from the seven-entity reference mapping")
         return v
+    if meta["mode"] == "thm":
+        l = last(impl)
+        if l.get("r") == "ok" and l.get("out") == meta["expect"]:
+            return []
+        return ["text ++ {{v}} ++ text: expected %r got %r" % (meta["expect"], l.get("out", l.get("reason", l.get("r"))))]
     return check_against_ref(tuple(meta["oracle"]), last(impl))
 
 
